@@ -215,6 +215,24 @@ def gen_grad(rng, i):
             pm[nm] = "var" if nm != "background" else rng.choice(["cluster", "global", "var"])
         else:
             pm[nm] = rng.choice(MODE_NAMES)
+    # the same request in the other spellings the API accepts: integer mode codes (MODE_DICT), and
+    # the broadcast keys 'pos' / 'size' for the per-axis columns
+    codes = {"const": 0, "var": 1, "global": 2, "cluster": 3}
+    sp = rng.random()
+    if sp < 0.25:
+        pm = {k: codes[v] for k, v in pm.items()}
+    elif sp < 0.35:
+        pm = {k: (codes[v] if rng.random() < 0.5 else v) for k, v in pm.items()}
+    if rng.random() < 0.2 and all(c in pm for c in pos) and len({pm[c] for c in pos}) == 1:
+        v = pm[pos[0]]
+        for c in pos:
+            del pm[c]
+        pm["pos"] = v
+    if not iso and rng.random() < 0.2 and all(c in pm for c in size_cols) and len({pm[c] for c in size_cols}) == 1:
+        v = pm[size_cols[0]]
+        for c in size_cols:
+            del pm[c]
+        pm["size"] = v
     return dict(stream="grad", ndim=ndim, iso=iso, fn=fn, n=n, clusters=clusters,
                 use_groups=use_groups, param_mode=pm, npseed=rng.randrange(2 ** 31),
                 small_size=rng.random() < 0.25, norm=rng.choice([1.0, 1.0, 37.5, 1e4]))
